@@ -1504,6 +1504,11 @@ fn eval_c06(sc: &Scenario) -> Outcome {
                 let b0 = s.out_before as usize;
                 let mut last_sp: Option<f64> = None;
                 for j in 0..*n_out {
+                    if b0 + j >= y.len() {
+                        // the executor keeps at most RunOpts::max_frames output frames of a run
+                        out.cov.probe("output_cap_reached", 1);
+                        return out;
+                    }
                     let v = y[b0 + j];
                     maxabs = maxabs.max(v.abs());
                     // the recovered instants are stream positions up to `maxabs`: their rounding noise is a few ulps of that
